@@ -174,6 +174,14 @@ class FuseSuccessiveReluClip(FuseSuccessiveClipRelu):
     def pattern(self, op, x):
         return op.Relu(op.Clip(x, _allow_other_inputs=True, _outputs=["out_first_clip"]))
 
+    def compute_clip_min_max(self, first_clip_node: ir.Node, _):
+        min_clip, max_clip = super().compute_clip_min_max(first_clip_node, _)
+        if max_clip is not None:
+            # Relu is applied after the Clip, so a negative maximum is raised to 0 as well.
+            _, _, dtype = self.extract_min_max(first_clip_node)
+            max_clip = ir.tensor(np.array(np.maximum(0.0, max_clip.numpy()), dtype=dtype))
+        return min_clip, max_clip
+
 
 successive_relu_rule = FuseSuccessiveRelu().rule()
 successive_clip_rule = FuseSuccessiveClip().rule()
